@@ -15,7 +15,8 @@ MA1 = (f"""(define (domain ma1)
 (:action drop :parameters (?a - agent ?i - item)
   :precondition (and (has ?a ?i)) :effect (and (free ?i) (not (has ?a ?i)) (not (busy ?a))))
 (:action pass :parameters (?a - agent ?b - agent ?i - item)
-  :precondition (and (has ?a ?i)) :effect (and (not (has ?a ?i)) (has ?b ?i))))
+  :precondition (and (has ?a ?i)) :effect (and (not (has ?a ?i)) (has ?b ?i)))
+(:action dim :parameters () :precondition (and (lit)) :effect (and (not (lit)))))
 """, """(define (problem ma1p) (:domain ma1)
 (:objects {agents} - agent i1 i2 - item)
 (:init (free i1) (free i2))
